@@ -4,6 +4,7 @@
 
 import html
 import math
+import posixpath
 import re
 import urllib.parse
 from collections.abc import Callable, Sequence
@@ -1752,7 +1753,10 @@ def rel2abs_fn(
     ):
         base_path = Path("/")
     path = base_path / path
-    return str(path.resolve()).removeprefix("/")
+    # Page titles are not files: normalize "." and ".." lexically.
+    # Path.resolve() would follow the symbolic links of the host's file
+    # system ("../lib/x" became "usr/lib/x" where /lib links to usr/lib).
+    return posixpath.normpath(str(path)).removeprefix("/")
 
 
 def int_fn(
